@@ -21,7 +21,7 @@ pub static DEF: PropDef = PropDef {
         "the lock service is an actor whose only suspension point is its empty inbox (checked: a sequence is replayed with extra yields and must give the same grants)",
         "releases are sent by the connection that holds the room, as the library's synchronisation task and connection clean-up do",
     ],
-    cases: |t| configs(t).len() as u64,
+    cases: |t| configs(t).len() as u64 + stack_cases(t),
     shards: |t| t.pick(8, 16),
     case_budget_s: |t| t.pick(600, 7200),
     min_conclusive: |_| 4,
@@ -363,9 +363,18 @@ fn key(cfg: &Config, seq: &[Action], alpha: &[Action]) -> String {
     hex::encode(&h.finalize().as_bytes()[0..8])
 }
 
+/// number of full-stack cases (exit paths of the synchronisation task, end of connection): see c20s.rs
+fn stack_cases(t: Tier) -> u64 {
+    t.pick(24, 600)
+}
+
 fn run_case<'a>(ctx: &'a Ctx, case: u64, acc: &'a mut Acc) -> CaseFut<'a> {
     Box::pin(async move {
         let cfgs = configs(ctx.tier);
+        if case as usize >= cfgs.len() {
+            crate::props::c20s::run(ctx, case, acc);
+            return;
+        }
         let cfg = cfgs[case as usize].clone();
         let alpha = alphabet(cfg.peers, cfg.rooms);
         let rt = tokio::runtime::Builder::new_current_thread()
